@@ -7,6 +7,9 @@
 (*   modifiers   : --brief (human, cyborg and dump only), --pretty (json and *)
 (*                 cyborg only)                                              *)
 (*   --output-file <f> : receives what standard output would                 *)
+(*   --log-file <f>    : receives the logger's diagnostics instead of stderr   *)
+(*   symbol sources    : positional paths, --symbols-path, --symbols-url with  *)
+(*                       --symbols-cache / --symbols-tmp or their defaults     *)
 (*   input class : a readable minidump; a file that is not a minidump;       *)
 (*                 an empty file; a missing path; a directory                *)
 (* Reports are abstract tokens; the harness obtains the bytes of each token  *)
@@ -16,21 +19,25 @@
 EXTENDS Naturals, Sequences, FiniteSets, TLC, Json
 Modes == {"human", "json", "cyborg", "dump"}
 Inputs == {"valid", "unprocessable", "notadump", "empty", "missing", "directory"}
-VARIABLES modes, brief, pretty, outfile, features, input, symbols, rfa, ran
-vars == <<modes, brief, pretty, outfile, features, input, symbols, rfa, ran>>
-Init == modes = {} /\ brief = FALSE /\ pretty = FALSE /\ outfile = FALSE /\ features = "stable-basic" /\ input = "valid" /\ symbols = "none" /\ rfa = FALSE /\ ran = FALSE
-AddMode == ~ran /\ Cardinality(modes) < 2 /\ \E m \in Modes \ modes : modes' = modes \cup {m} /\ UNCHANGED <<brief, pretty, outfile, features, input, symbols, rfa, ran>>
-SetBrief == ~ran /\ ~brief /\ brief' = TRUE /\ UNCHANGED <<modes, pretty, outfile, features, input, symbols, rfa, ran>>
-SetPretty == ~ran /\ ~pretty /\ pretty' = TRUE /\ UNCHANGED <<modes, brief, outfile, features, input, symbols, rfa, ran>>
-SetOutfile == ~ran /\ ~outfile /\ outfile' = TRUE /\ UNCHANGED <<modes, brief, pretty, features, input, symbols, rfa, ran>>
-SetFeatures == ~ran /\ features = "stable-basic" /\ modes \subseteq {"json"} /\ ~brief /\ features' \in {"stable-all", "unstable-all"} /\ UNCHANGED <<modes, brief, pretty, outfile, input, symbols, rfa, ran>>
-SetInput == ~ran /\ input = "valid" /\ input' \in Inputs \ {"valid"} /\ UNCHANGED <<modes, brief, pretty, outfile, features, symbols, rfa, ran>>
-SetSymbols == ~ran /\ symbols = "none" /\ modes \subseteq {"json", "human", "cyborg"} /\ ~brief /\ ~outfile /\ input = "valid" /\ symbols' \in {"positional", "flag", "both"}
-              /\ UNCHANGED <<modes, brief, pretty, outfile, features, input, rfa, ran>>
+VARIABLES modes, brief, pretty, outfile, features, input, symbols, rfa, sink, logf, ran
+vars == <<modes, brief, pretty, outfile, features, input, symbols, rfa, sink, logf, ran>>
+Init == modes = {} /\ brief = FALSE /\ pretty = FALSE /\ outfile = FALSE /\ features = "stable-basic" /\ input = "valid" /\ symbols = "none" /\ rfa = FALSE /\ sink = "ok" /\ logf = "none" /\ ran = FALSE
+AddMode == ~ran /\ Cardinality(modes) < 2 /\ \E m \in Modes \ modes : modes' = modes \cup {m} /\ UNCHANGED <<brief, pretty, outfile, features, input, symbols, rfa, sink, logf, ran>>
+SetBrief == ~ran /\ ~brief /\ brief' = TRUE /\ UNCHANGED <<modes, pretty, outfile, features, input, symbols, rfa, sink, logf, ran>>
+SetPretty == ~ran /\ ~pretty /\ pretty' = TRUE /\ UNCHANGED <<modes, brief, outfile, features, input, symbols, rfa, sink, logf, ran>>
+SetOutfile == ~ran /\ ~outfile /\ outfile' = TRUE /\ UNCHANGED <<modes, brief, pretty, features, input, symbols, rfa, sink, logf, ran>>
+SetFeatures == ~ran /\ sink = "ok" /\ logf = "none" /\ features = "stable-basic" /\ modes \subseteq {"json"} /\ ~brief /\ features' \in {"stable-all", "unstable-all"} /\ UNCHANGED <<modes, brief, pretty, outfile, input, symbols, rfa, sink, logf, ran>>
+SetInput == ~ran /\ input = "valid" /\ input' \in Inputs \ {"valid"} /\ UNCHANGED <<modes, brief, pretty, outfile, features, symbols, rfa, sink, logf, ran>>
+SetSymbols == ~ran /\ sink = "ok" /\ logf = "none" /\ symbols = "none" /\ modes \subseteq {"json", "human", "cyborg"} /\ ~brief /\ ~outfile /\ input = "valid" /\ symbols' \in {"positional", "flag", "both", "http_cache", "http_default"}
+              /\ UNCHANGED <<modes, brief, pretty, outfile, features, input, rfa, sink, logf, ran>>
 \* --recover-function-args is an analysis option of the library: it changes what the reports contain, never which report goes where
-SetRfa == ~ran /\ ~rfa /\ ~outfile /\ ~pretty /\ features = "stable-basic" /\ input = "valid" /\ rfa' = TRUE /\ UNCHANGED <<modes, brief, pretty, outfile, features, input, symbols, ran>>
-Run == ~ran /\ ran' = TRUE /\ UNCHANGED <<modes, brief, pretty, outfile, features, input, symbols, rfa>>
-Next == AddMode \/ SetBrief \/ SetPretty \/ SetOutfile \/ SetFeatures \/ SetInput \/ SetSymbols \/ SetRfa \/ Run
+SetRfa == ~ran /\ sink = "ok" /\ logf = "none" /\ ~rfa /\ ~outfile /\ ~pretty /\ features = "stable-basic" /\ input = "valid" /\ rfa' = TRUE /\ UNCHANGED <<modes, brief, pretty, outfile, features, input, symbols, sink, logf, ran>>
+\* a sink whose file cannot be created (its directory does not exist); --log-file, creatable or not
+SetSink == ~ran /\ sink = "ok" /\ symbols = "none" /\ ~rfa /\ features = "stable-basic" /\ sink' \in (IF "cyborg" \in modes THEN {"cyborg_bad"} ELSE {}) \cup (IF outfile THEN {"outfile_bad"} ELSE {})
+           /\ UNCHANGED <<modes, brief, pretty, outfile, features, input, symbols, rfa, logf, ran>>
+SetLog == ~ran /\ logf = "none" /\ symbols = "none" /\ ~rfa /\ features = "stable-basic" /\ sink = "ok" /\ logf' \in {"ok", "bad"} /\ UNCHANGED <<modes, brief, pretty, outfile, features, input, symbols, rfa, sink, ran>>
+Run == ~ran /\ ran' = TRUE /\ UNCHANGED <<modes, brief, pretty, outfile, features, input, symbols, rfa, sink, logf>>
+Next == AddMode \/ SetBrief \/ SetPretty \/ SetOutfile \/ SetFeatures \/ SetInput \/ SetSymbols \/ SetRfa \/ SetSink \/ SetLog \/ Run
 Spec == Init /\ [][Next]_vars
 \* ---- the documented behaviour ----
 GroupOk == Cardinality(modes) <= 1                                 \* clap rejects two mode flags (usage error)
@@ -44,20 +51,26 @@ Accepted == GroupOk /\ PrettyOk /\ BriefOk
 Readable == input \in {"valid", "unprocessable"}                    \* Minidump::read succeeds
 JsonTok == IF pretty THEN "json_pretty" ELSE "json"
 HumanTok == IF brief THEN "text_brief" ELSE "text"
-Outcome ==
+\* where the diagnostic of a failure goes: messages of the tool's logger follow --log-file, everything else is on standard error
+Logged == IF logf = "ok" THEN "log" ELSE "stderr"
+Silent(d) == [exit |-> "one", primary |-> <<>>, cyborg |-> <<>>, diag |-> d]
+Outcome0 ==
   IF ~GroupOk THEN [exit |-> "usage", primary |-> <<>>, cyborg |-> <<>>]
-  ELSE IF ~Accepted THEN [exit |-> "one", primary |-> <<>>, cyborg |-> <<>>]
-  ELSE IF ~Readable THEN [exit |-> "one", primary |-> <<>>, cyborg |-> <<>>]
+  ELSE IF logf = "bad" THEN Silent("stderr")                         \* the log file is opened first
+  ELSE IF ~Accepted THEN Silent(Logged)
+  ELSE IF ~Readable THEN Silent(Logged)
+  ELSE IF sink # "ok" THEN Silent("stderr")                          \* both sinks are created before anything is written
   ELSE IF Dump THEN [exit |-> "zero", primary |-> <<IF brief THEN "dump_brief" ELSE "dump">>, cyborg |-> <<>>]      \* the raw dump needs no processing
-  ELSE IF input = "unprocessable" THEN [exit |-> "one", primary |-> <<>>, cyborg |-> <<>>]
+  ELSE IF input = "unprocessable" THEN Silent(Logged)
   ELSE IF Cyborg THEN [exit |-> "zero", primary |-> <<HumanTok>>, cyborg |-> <<JsonTok>>]
   ELSE IF Json THEN [exit |-> "zero", primary |-> <<JsonTok>>, cyborg |-> <<>>]
   ELSE [exit |-> "zero", primary |-> <<HumanTok>>, cyborg |-> <<>>]
+Outcome == IF "diag" \in DOMAIN Outcome0 THEN Outcome0 ELSE [exit |-> Outcome0.exit, primary |-> Outcome0.primary, cyborg |-> Outcome0.cyborg, diag |-> IF Outcome0.exit = "zero" THEN "none" ELSE "stderr"]
 \* ---- design-level properties ----
 \* a failing run never produces a report; a successful one produces exactly one report on the primary sink
 FailureIsSilent == Outcome.exit # "zero" => (Outcome.primary = <<>> /\ Outcome.cyborg = <<>>)
 SuccessHasPrimary == Outcome.exit = "zero" => Len(Outcome.primary) = 1
 CyborgOnlyWithCyborg == Outcome.cyborg # <<>> => Cyborg
 Emit == ran => PrintT(<<"CASE", ToJson([modes |-> modes, brief |-> brief, pretty |-> pretty, outfile |-> outfile, features |-> features, input |-> input,
-                                          symbols |-> symbols, rfa |-> rfa, out |-> Outcome])>>)
+                                          symbols |-> symbols, rfa |-> rfa, sink |-> sink, logf |-> logf, out |-> Outcome])>>)
 ====
